@@ -1,5 +1,6 @@
 import Cdecao.Model.Simple
 import Cdecao.Model.Cli
+import Cdecao.Model.RoomsInput
 /-! # C15 — malformed input is refused with an error, never with a panic (simple format, from the
     JSON value on)
 
@@ -40,5 +41,177 @@ theorem C15_missing_member (j : JS.J) (h : j.get "participants" = none ∨ j.get
     | some pv =>
       simp only [h]
       cases asVec partOf pv <;> simp
+
+/-! ### the two room inputs (`--rooms`, `--rooms-file`): all or nothing
+
+`RI.parseRoomsStr` (main.rs `parse_rooms`) and `RI.kindsOf` (io/rooms.rs `read` from the JSON value
+on) either refuse the whole input or deliver one entry per item, each within `usize`; a single bad
+item refuses everything (no item is silently dropped or defaulted). -/
+
+theorem mapOpt_some {α β : Type} (f : α → Option β) :
+    ∀ (l : List α) (r : List β), RI.mapOpt f l = some r →
+      r.length = l.length ∧ ∀ i (h : i < l.length) (h' : i < r.length), f l[i] = some r[i]
+  | [], r, h => by
+    simp only [RI.mapOpt, Option.some.injEq] at h; subst h
+    exact ⟨rfl, fun i h _ => absurd h (Nat.not_lt_zero i)⟩
+  | x :: xs, r, h => by
+    simp only [RI.mapOpt] at h
+    split at h
+    · rename_i y ys hy hys
+      simp only [Option.some.injEq] at h; subst h
+      obtain ⟨hl, hi⟩ := mapOpt_some f xs ys hys
+      refine ⟨by simp [hl], fun i h h' => ?_⟩
+      cases i with
+      | zero => simpa using hy
+      | succ i => simpa using hi i (by simpa using h) (by simpa using h')
+    · exact absurd h (by simp)
+
+theorem mapOpt_none_of_bad {α β : Type} (f : α → Option β) :
+    ∀ (l : List α) (x : α), x ∈ l → f x = none → RI.mapOpt f l = none
+  | [], _, h, _ => by simp at h
+  | y :: ys, x, h, hx => by
+    simp only [RI.mapOpt]
+    rcases List.mem_cons.1 h with rfl | h
+    · simp [hx]
+    · rw [mapOpt_none_of_bad f ys x h hx]; split <;> simp_all
+
+theorem digitsVal_bound (ds : List Char) (n : Nat) (h : RI.digitsVal ds = some n) : n ≤ JS.J.U64_MAX := by
+  unfold RI.digitsVal at h
+  split at h
+  · exact absurd h (by simp)
+  · split at h
+    · split at h
+      · rename_i hle
+        simp only [Option.some.injEq] at h; subst h; exact hle
+      · exact absurd h (by simp)
+    · exact absurd h (by simp)
+
+theorem parseUsize_bound (cs : List Char) (n : Nat) (h : RI.parseUsizeL cs = some n) : n ≤ JS.J.U64_MAX := by
+  unfold RI.parseUsizeL at h
+  split at h <;> exact digitsVal_bound _ _ h
+
+/-- an accepted item is an optional `+` followed by at least one character, all of them ASCII digits -/
+theorem parseUsize_shape (cs : List Char) (n : Nat) (h : RI.parseUsizeL cs = some n) :
+    ∃ ds, (cs = ds ∨ cs = '+' :: ds) ∧ ds ≠ [] ∧ (∀ c ∈ ds, c.isDigit = true) ∧ n = RI.digitsNat ds := by
+  have key : ∀ ds, RI.digitsVal ds = some n → ds ≠ [] ∧ (∀ c ∈ ds, c.isDigit = true) ∧ n = RI.digitsNat ds := by
+    intro ds hd
+    unfold RI.digitsVal at hd
+    split at hd
+    · exact absurd hd (by simp)
+    · rename_i hne
+      split at hd
+      · rename_i hall
+        split at hd
+        · simp only [Option.some.injEq] at hd
+          exact ⟨by intro h0; subst h0; simp at hne, by simpa using hall, hd.symm⟩
+        · exact absurd hd (by simp)
+      · exact absurd hd (by simp)
+  unfold RI.parseUsizeL at h
+  split at h
+  · rename_i rest
+    exact ⟨rest, Or.inr rfl, key _ h⟩
+  · exact ⟨cs, Or.inl rfl, key _ h⟩
+
+theorem parseUsize_empty : RI.parseUsizeL [] = none := by decide
+
+/-- `--rooms`: accepted ⇒ one room per comma-separated item, each the value of that item and within
+    `usize`; any item that is not a number refuses the whole option -/
+theorem C15_rooms_str (s : String) (l : List Nat) (h : RI.parseRoomsStr s = some l) :
+    l.length = (RI.splitComma s.toList).length ∧
+    (∀ i (h1 : i < (RI.splitComma s.toList).length) (h2 : i < l.length),
+        RI.parseUsizeL (RI.splitComma s.toList)[i] = some l[i]) ∧
+    ∀ n ∈ l, n ≤ JS.J.U64_MAX := by
+  obtain ⟨hl, hi⟩ := mapOpt_some _ _ _ h
+  refine ⟨hl, hi, fun n hn => ?_⟩
+  obtain ⟨i, hi', rfl⟩ := List.getElem_of_mem hn
+  exact parseUsize_bound _ _ (hi i (by omega) hi')
+
+theorem C15_rooms_str_refuse (s : String) (x : List Char) (hx : x ∈ RI.splitComma s.toList)
+    (hbad : RI.parseUsizeL x = none) : RI.parseRoomsStr s = none :=
+  mapOpt_none_of_bad _ _ x hx hbad
+
+/-- the pieces contain no comma and joining them with commas gives the text back: nothing is lost
+    or merged by the split -/
+theorem splitComma_spec : ∀ cs : List Char,
+    (∀ x ∈ RI.splitComma cs, ',' ∉ x) ∧ cs = List.intercalate [','] (RI.splitComma cs) ∧ RI.splitComma cs ≠ []
+  | [] => by simp [RI.splitComma, List.intercalate]
+  | c :: cs => by
+    obtain ⟨h1, h2, h3⟩ := splitComma_spec cs
+    unfold RI.splitComma
+    split
+    · rename_i he; exact absurd he h3
+    · rename_i x xs he
+      rw [he] at h1 h2
+      by_cases hc : c = ','
+      · subst hc
+        refine ⟨?_, ?_, by simp⟩
+        · intro y hy
+          simp only [if_true, List.mem_cons] at hy
+          rcases hy with rfl | hy
+          · simp
+          · exact h1 y (by simpa using hy)
+        · simp only [if_true]
+          rw [h2]
+          cases xs <;> simp [List.intercalate, List.intersperse]
+      · refine ⟨?_, ?_, by simp [hc]⟩
+        · intro y hy
+          simp only [hc, if_false, List.mem_cons] at hy
+          rcases hy with rfl | hy
+          · intro hm
+            rcases List.mem_cons.1 hm with h | h
+            · exact hc h.symm
+            · exact h1 x (by simp) h
+          · exact h1 y (by simp [hy])
+        · simp only [hc, if_false]
+          rw [h2]
+          cases xs <;> simp [List.intercalate, List.intersperse]
+
+/-- `--rooms-file`: accepted ⇒ the document is an array and there is one kind per element, each the
+    reading of that element; one unreadable element refuses the whole file -/
+theorem C15_rooms_file (j : JS.J) (ks : List RM.Kind) (h : RI.kindsOf j = some ks) :
+    ∃ l, j = .arr l ∧ ks.length = l.length ∧
+      ∀ i (h1 : i < l.length) (h2 : i < ks.length), RI.kindOf l[i] = some ks[i] := by
+  unfold RI.kindsOf at h
+  split at h
+  · rename_i l
+    obtain ⟨hl, hi⟩ := mapOpt_some _ _ _ h
+    exact ⟨l, rfl, hl, hi⟩
+  · exact absurd h (by simp)
+
+theorem C15_rooms_file_refuse (l : List JS.J) (x : JS.J) (hx : x ∈ l) (hbad : RI.kindOf x = none) :
+    RI.kindsOf (.arr l) = none := by
+  simp only [RI.kindsOf]; exact mapOpt_none_of_bad _ _ x hx hbad
+
+/-- a kind that is read has a text name and both numbers within `usize` -/
+theorem C15_rooms_kind (j : JS.J) (k : RM.Kind) (h : RI.kindOf j = some k) :
+    k.capacity ≤ JS.J.U64_MAX ∧ k.quantity ≤ JS.J.U64_MAX := by
+  have hu : ∀ (v : JS.J) (n : Nat), RI.asUsize v = some n → n ≤ JS.J.U64_MAX := by
+    intro v n hv
+    unfold RI.asUsize at hv
+    split at hv
+    · split at hv
+      · simp only [Option.some.injEq] at hv; omega
+      · exact absurd hv (by simp)
+    · exact absurd hv (by simp)
+  unfold RI.kindOf at h
+  split at h
+  · split at h
+    · rename_i name cap q _ hc hq
+      simp only [Option.some.injEq] at h; subst h
+      obtain ⟨v, _, hv⟩ := Option.bind_eq_some_iff.1 hc
+      obtain ⟨w, _, hw⟩ := Option.bind_eq_some_iff.1 hq
+      exact ⟨hu _ _ hv, hu _ _ hw⟩
+    · exact absurd h (by simp)
+  · split at h
+    · rename_i name cap q _ hc hq
+      simp only [Option.some.injEq] at h; subst h
+      exact ⟨hu _ _ hc, hu _ _ hq⟩
+    · exact absurd h (by simp)
+  · exact absurd h (by simp)
+
+example : RI.parseRoomsL "10,+5,007".toList = some [10, 5, 7] := by decide
+example : RI.parseRoomsL ['1', '0', ',', ' ', '5'] = none := by decide
+example : RI.parseRoomsL ['1', '0', ',', ',', '5'] = none := by decide
+example : RI.parseRoomsL [] = none := by decide
 
 end Props
